@@ -172,8 +172,14 @@ func makeHistPlan(seed uint64, kind string, idx int, canClone bool) histPlan {
 		if kind == "namespaced" {
 			k = fmt.Sprintf("ns%d|n%d", i%2, i)
 		}
+		fixed := kind == "gin-render-negotiate" // built-in names of a process-wide register: every
+		if fixed {                              // scenario starts from values it registered itself
+			k = negotiateKeys[(idx+i)%3]
+		}
 		p.keys = append(p.keys, k)
-		if r.Chance(1, 3) {
+		if fixed {
+			p.init[k] = int64(1000*(idx+1) + i)
+		} else if r.Chance(1, 3) {
 			p.init[k] = int64(1 + i)
 		}
 	}
@@ -269,6 +275,16 @@ func runSeq(kind string, idx int, seed uint64, n int) histOut {
 		if kind == "namespaced" {
 			k = fmt.Sprintf("ns%d|n%d", i%2, i)
 		}
+		if kind == "gin-render-negotiate" {
+			if i >= 3 {
+				break
+			}
+			k = negotiateKeys[(idx+i)%3]
+			keys = append(keys, k)
+			res.Init[k] = int64(1000*(idx+1) + i)
+			reg.reg(k, res.Init[k])
+			continue
+		}
 		keys = append(keys, k)
 		if r.Chance(1, 3) {
 			res.Init[k] = int64(1 + i)
@@ -277,7 +293,7 @@ func runSeq(kind string, idx int, seed uint64, n int) histOut {
 	}
 	fl := newFlight(fmt.Sprintf("seq:%s:%d", kind, idx), 1)
 	for j := 0; j < n; j++ {
-		k := keys[r.Intn(nk)]
+		k := keys[r.Intn(len(keys))]
 		x := r.Intn(10)
 		o := hOp{Key: k, Inv: int64(2*j + 1), Ret: int64(2*j + 2)}
 		d := fmt.Sprintf("%s operation %d on %s (single goroutine)", kind, j, k)
@@ -535,6 +551,14 @@ func runRegistryMix(name string, g, iters int) {
 	if name == "namespaced" {
 		keys = []string{"ns0|a", "ns0|b", "ns1|c"}
 	}
+	if name == "gin-render-negotiate" {
+		keys = negotiateKeys
+	}
+	if name == "combiner" {
+		// the name of the built-in combiner is a registration target like any other, and names
+		// nobody registered are looked up too (they resolve to the fallback)
+		keys = []string{"c20r.a", "default", "c20r.never-registered"}
+	}
 	reg.reg(keys[0], 1)
 	var nsr *register.Namespaced
 	if n, ok := reg.(*namespacedReg); ok {
@@ -561,6 +585,9 @@ func runRegistryMix(name string, g, iters int) {
 			switch (t + j) % 4 {
 			case 0:
 				fl.begin(t, &dReg)
+				if k == "c20r.never-registered" {
+					k = "default"
+				}
 				reg.reg(k, int64(t*100000+j))
 			case 1, 2:
 				fl.begin(t, &dGet)
@@ -615,6 +642,8 @@ func runRaceScenario(name string, variant int, thorough bool) string {
 		}
 		bad := int64(0)
 		desc := "back-off call"
+		descName := "back-off GetByName"
+		spellings := []string{"Exponential-Jitter", "LINEAR", "Linear-Jitter", "", "unknown", "eXponential", "linear", "EXPONENTIAL-JITTER"}
 		parallel("backoff", g, func(t int, fl *flight) {
 			for j := 0; j < iters; j++ {
 				for i := 0; i <= 30; i++ {
@@ -625,6 +654,17 @@ func runRaceScenario(name string, variant int, thorough bool) string {
 					}
 					fl.end(t)
 				}
+				// strategies are also resolved by name while others compute delays: every spelling a
+				// configuration may use (case variants, unknown names, the empty name), first seen here
+				sp := spellings[(t+j)%len(spellings)]
+				if j%3 == 0 {
+					sp = fmt.Sprintf("%s#%d.%d", sp, t, j)
+				}
+				fl.begin(t, &descName)
+				if backoff.GetByName(sp)(3) < 0 {
+					atomic.AddInt64(&bad, 1)
+				}
+				fl.end(t)
 			}
 		})
 		if bad != 0 {
